@@ -73,6 +73,27 @@ structure BStep where
   early : Bool := false
   deriving DecidableEq, Inhabited
 
+/-- one state visit (one event) of the run's *skeleton* — what the crash / redelivery protocol model
+(AslModel/Crash.lean) needs to know of an execution: the visits in order, the fan-outs with their branches -/
+inductive Tok where
+  /-- a state handled when its event arrives (Pass, Choice, Succeed) -/
+  | s
+  /-- a Fail state -/
+  | f
+  /-- a Wait state -/
+  | w
+  /-- a Task whose request has not gone out -/
+  | tq
+  /-- a Task visit: request, reply -/
+  | t
+  /-- a Task visit whose error nobody handles: it fails its scope -/
+  | x
+  /-- a Parallel / Map state that has not launched its branches -/
+  | fan
+  /-- a Parallel / Map state (`mc`: MaxConcurrency, 0 = all at once) with the visits of its branches -/
+  | par (mc : Nat) (branches : List (List Tok))
+  deriving Inhabited
+
 /-- the last step of a branch that has ended, not yet closed: `frames` most recent first; `hold`: the
 events the join is to hold for it, `now`: what is acknowledged in this step whatever the join does;
 `owed`: those of `hold ++ now` that were delivered in a step closed earlier; `seg`: the branch's closed steps -/
@@ -85,6 +106,7 @@ structure Tail where
   owed : List Nat
   failed : Bool
   seg : List BStep
+  toks : List Tok := []
   deriving Inhabited
 
 /-- one fan-out level: the branches that have ended; `base` is the message number of slot `lo`'s event
@@ -95,6 +117,9 @@ structure Level where
   lo : Nat := 0
   path : List Nat := []
   mark : Nat := 0
+  /-- the visits of the thread the fan-out state belongs to (most recent first; the head is the fan-out state's own) -/
+  toks : List Tok := []
+  mc : Nat := 0
   deriving Inhabited
 
 structure FS where
@@ -117,9 +142,32 @@ structure FS where
   tieJoin : Bool := false
   /-- a Task ran into its time limit: its reply, if any, arrives later and is not part of the prediction -/
   late : Bool := false
+  /-- the visits of the current thread, most recent first -/
+  toks : List Tok := []
   deriving Inhabited
 
 namespace FS
+
+/-- a state is visited (its event has arrived) -/
+def visit (fs : FS) (k : Tok) : FS := { fs with toks := k :: fs.toks }
+
+/-- the visit in progress is a Task's and its request goes out -/
+def requested (toks : List Tok) : List Tok :=
+  match toks with
+  | .tq :: r => .t :: r
+  | r => r
+
+/-- the visit in progress fails its scope -/
+def failTok (fs : FS) : FS :=
+  { fs with toks := match fs.toks with
+      | .t :: r => .x :: r
+      | r => r }
+
+/-- the fan-out state's visit, now with its branches -/
+def withBranches (toks : List Tok) (mc : Nat) (bs : List (List Tok)) : List Tok :=
+  match toks with
+  | .fan :: r => .par mc bs :: r
+  | r => .par mc bs :: r
 
 def pub (fs : FS) (f : BFr) : FS := { fs with open_ := f :: fs.open_ }
 
@@ -152,11 +200,11 @@ the reply is delivered (in a step of its own, closed later) -/
 def request (fs : FS) (t : Rat) (timedOut : Bool) : FS :=
   let ev := fs.hold.getLastD 0
   let fs1 := ((fs.pub (.pubReq fs.next ev)).closeKeep t)
-  let fs2 := { fs1 with next := fs.next + 1 }
+  let fs2 := { fs1 with next := fs.next + 1, toks := requested fs.toks }
   if timedOut then { fs2 with late := true } else fs2.deliverNow fs.next
 
-def pushLevel (fs : FS) : FS :=
-  { fs with outer := fs.lvl :: fs.outer, lvl := { path := fs.path, mark := fs.mark } }
+def pushLevel (fs : FS) (mc : Nat) : FS :=
+  { fs with outer := fs.lvl :: fs.outer, lvl := { path := fs.path, mark := fs.mark, toks := fs.toks, mc := mc }, toks := [] }
 
 def pubBranches (base lo : Nat) (path : List Nat) : Nat → List Str → List BFr
   | _, [] => []
@@ -176,16 +224,16 @@ def launch (fs : FS) (t : Rat) (names : List Str) : FS :=
 def startBranch (fs : FS) : FS :=
   let slot := fs.lvl.fins.length
   let id := fs.lvl.base + (slot - fs.lvl.lo)
-  ({ fs with rel := false, path := fs.lvl.path ++ [slot], mark := fs.steps.length }).deliverHold id
+  ({ fs with rel := false, path := fs.lvl.path ++ [slot], mark := fs.steps.length, toks := [] }).deliverHold id
 
 /-- a branch has ended: its last step is put aside -/
 def endBranch (fs : FS) (t : Rat) (failed : Bool) : FS :=
   let fin : Tail :=
     { slot := fs.lvl.fins.length, t := t, frames := fs.open_,
       hold := if fs.rel then [] else fs.hold, now := if fs.rel then fs.hold ++ fs.now else fs.now,
-      owed := fs.owed, failed := failed, seg := fs.steps.take (fs.steps.length - fs.mark) }
+      owed := fs.owed, failed := failed, seg := fs.steps.take (fs.steps.length - fs.mark), toks := fs.toks }
   { fs with lvl := { fs.lvl with fins := fs.lvl.fins ++ [fin] }, open_ := [], hold := [], now := [], owed := [],
-            rel := false }
+            rel := false, toks := [] }
 
 def finLater (a b : Tail) : Bool := a.t < b.t || (a.t == b.t && a.slot ≤ b.slot)
 
@@ -245,6 +293,7 @@ def joinOn (fs : FS) (c : Tail) (tie : Bool) : FS :=
               owed := fs.owed ++ rest.flatMap (·.hold) ++ same.flatMap (·.owed),
               rel := true, path := fs.lvl.path, mark := fs.lvl.mark,
               tieJoin := fs.tieJoin || tie,
+              toks := withBranches fs.lvl.toks fs.lvl.mc (fins.map (·.toks.reverse)),
               lvl := { fs.lvl with fins := [] } }
 
 def join (fs : FS) (failed : Bool) : FS :=
@@ -253,7 +302,7 @@ def join (fs : FS) (failed : Bool) : FS :=
   let pick : Option Tail := match latest cur with | some f => some f | none => latest fins
   let co : Option Tail := if failed then (match firstFailed fins with | some f => some f | none => pick) else pick
   match co with
-  | none => { popLevel fs with path := fs.lvl.path, mark := fs.lvl.mark }
+  | none => { popLevel fs with path := fs.lvl.path, mark := fs.lvl.mark, toks := withBranches fs.lvl.toks fs.lvl.mc [] }
   | some c => fs.joinOn c (tied c cur)
 
 /-- … of a batch: the one in slot `c` publishes the re-entry event `rp` -/
